@@ -20,12 +20,18 @@ def run(tier):
     chk.layer('B', monomial_relations_checked=len({e['id'] for e in mr}), of_which_named_definitions=len({e['id'] for e in mr if e['id'] in defined}),
               worst_ulps=max([e['ulps'] for e in mr] or [0]), tensor_real_events=len(tr), worst_tensor_ulps=max([e['ulps'] for e in tr] or [0]),
               note='every all-scalar monomial relation (the named definitions among them) against c * prod x^p in __float128, three numeric types, random positive inputs over 40 binades; budget 4 ulps (8 with a square root)')
-    chk.count(evaluations=sum(e['n'] for e in mr) + sum(e['n'] for e in tr) + len(td) + len(defs) + len(sv), distinct=len(defs) + len(sv) + len(td) + len(mr) + len(tr))
+    th = [e for e in out['facts'] if e['e'] == 'Theory']
+    chk.add_tlc('MC_Theory(theory states are models of every definition)', out['theory_tlc'])
+    chk.layer('T', theory_relations=out['theory_relations'], theory_events=len(th), states=len({e['state'] for e in th}), worst_ulps=max([e['ulps'] for e in th] or [0]),
+              note='derived forms (Theory.tla): three states of a fluid at a point that TLC shows to satisfy all 18 scalar fluid definitions and 6 auxiliary ones exactly; every relation of the '
+                   'graph among pairwise distinct variables of the theory (R(gamma, cv), cp(gamma, R), mu from Re, ...) evaluated at each state in each numeric type must return the '
+                   "state's value of its result type (snapped to the nearest small rational, within 8 ulps); coverage of all such relations is checked by the trace spec")
+    chk.count(evaluations=len(th) + sum(e['n'] for e in mr) + sum(e['n'] for e in tr) + len(td) + len(defs) + len(sv), distinct=len(th) + len(defs) + len(sv) + len(td) + len(mr) + len(tr))
     chk.cov['rule'] = 'one Def fact per named definition (23 scalar) + 14 tensor-definition relations x 3 numeric types x 3 integer cases; numeric events per (relation, numeric type)'
     for d in defs[:3]:
         chk.sample({'definition': d['def'], 'relation': byid[d['rel']]['name'] if d['rel'] >= 0 else None,
                     'fingerprint': {k: v for k, v in out['fps'][d['rel']].items() if k != 'c'} if d['rel'] >= 0 else None})
-    for e in td[:2] + mr[:1] + tr[:1]:
+    for e in td[:2] + mr[:1] + tr[:1] + th[:1]:
         chk.sample(e)
     chk.assumptions += ['the table of definitions (spec/Definitions.tla) is hand-written from the formulas named in the property; a definition missing from the tree is a violation',
                         'constants of scalar monomials are recognised as square roots of small rationals (c^2 with denominator <= 4096)']
